@@ -181,7 +181,7 @@ ARCH_RULE = ("every abstract archive with <= %d sections over %s x 4 root lists 
              "reference encoder and given to the real code; ")
 
 
-def archive_family(pid, cfgs, mode, emit, rule, note, level="model_checking", assumptions=None):
+def archive_family(pid, cfgs, mode, emit, rule, note, level="model_checking", assumptions=None, more=None):
     vh = build_harness()
     check_alphabet(vh)
     tot_model = {"distinct": 0, "states": 0, "cmd": ""}
@@ -197,6 +197,12 @@ def archive_family(pid, cfgs, mode, emit, rule, note, level="model_checking", as
         tlc_must_pass(em, "ArchiveCases emitter (%s)" % cfg)
         emit_states += em["distinct"]
         rc, rep = harness_run(vh, ["archive-replay", em["out"], "@REPORT", "mode=" + mode])
+        reps.append(rep)
+        os.remove(em["out"])
+    for emit_cfg, mode2 in (more or []):
+        em = run_tlc("MCArchive", emit_cfg, timeout=1800)
+        tlc_must_pass(em, "ArchiveCases emitter (%s)" % emit_cfg)
+        rc, rep = harness_run(vh, ["archive-replay", em["out"], "@REPORT", "mode=" + mode2])
         reps.append(rep)
         os.remove(em["out"])
     rep = reps[0]
@@ -242,7 +248,9 @@ def check_C13():
                    ARCH_RULE % (3, "the same alphabets") +
                    "Reader.Inspect(true|false) x ZeroLengthSectionAsEOF is compared field by field with the specification's Stats operator, and its success with that of a hash-verifying "
                    "BlockReader scan; corrupted/truncated inputs are compared in the same way from the C02 mutation set",
-                   "complete enumeration of the bounded valid-archive space; the iff-with-scan clause is additionally evaluated on every truncation/corruption of the C02 archive set")
+                   "complete enumeration of the bounded valid-archive space; the iff-with-scan clause is additionally evaluated on the C02 archive set under every truncation, every data / digest "
+                   "byte flip, every flip of a byte in front of the first section (pragma, CARv2 header, inner header) and an over-announced last section",
+                   more=[("Archive_T_emitScan.cfg" if tier() == "quick" else "Archive_T3_emitScan.cfg", "iff"), ("Archive_TBig_emitScan.cfg", "iff")])
 
 
 def check_C02():
